@@ -329,7 +329,9 @@ func DefaultExternals() map[string]externalFn {
 			buf, _ := st[1].([]value)
 			return mkString(buf)
 		},
-		"strings.Clone": func(fr *frame, args []value) value { return args[0] },
+		"strings.Clone":   func(fr *frame, args []value) value { return args[0] },
+		"strings.ToLower": func(fr *frame, args []value) value { return fr.asciiCase(args[0], false) },
+		"strings.ToUpper": func(fr *frame, args []value) value { return fr.asciiCase(args[0], true) },
 		"(*bytes.Buffer).String": func(fr *frame, args []value) value {
 			p := args[0].(*value)
 			if p == nil {
@@ -722,3 +724,44 @@ func addAtomics(m map[string]externalFn) {
 }
 
 var _ = unsafe.Pointer(nil)
+
+// asciiCase implements strings.ToLower/ToUpper for strings with symbolic bytes: when every byte is
+// ASCII (decided by the solver) the result is the byte-wise case mapping; otherwise the real
+// function body is interpreted.
+func (fr *frame) asciiCase(s value, upper bool) value {
+	i := fr.i
+	tb := i.tb
+	name := "ToLower"
+	if upper {
+		name = "ToUpper"
+	}
+	fn := fr.fn // the intrinsic is entered with fr.fn = strings.ToLower/ToUpper
+	if cs, ok := s.(string); ok {
+		if upper {
+			return strings.ToUpper(cs)
+		}
+		return strings.ToLower(cs)
+	}
+	b := strBytes(s)
+	ascii := tb.True()
+	for _, c := range b {
+		ascii = tb.And(ascii, tb.Cmp(OpBvUlt, i.termOf(c), tb.Const(0x80, 8)))
+	}
+	if !fr.branch(ascii, "ascii-"+name) {
+		i.skipExternal = fn
+		return callSSA(i, fr.caller, token.NoPos, fn, []value{s}, nil)
+	}
+	out := make([]value, len(b))
+	for k, c := range b {
+		ct := i.termOf(c)
+		var lo, hi uint64 = 'A', 'Z'
+		var delta uint64 = 32
+		if upper {
+			lo, hi = 'a', 'z'
+			delta = 0xE0 // -32 mod 256
+		}
+		in := tb.And(tb.Cmp(OpBvUle, tb.Const(lo, 8), ct), tb.Cmp(OpBvUle, ct, tb.Const(hi, 8)))
+		out[k] = i.mkInt(tb.Ite(in, tb.Bin(OpBvAdd, ct, tb.Const(delta, 8)), ct), types.Uint8)
+	}
+	return mkString(out)
+}
